@@ -1,4 +1,4 @@
-use lopdf::{Document, Object, Stream, Dictionary, StringFormat, dictionary};
+use lopdf::{Document, Object, Stream, Dictionary, StringFormat, dictionary, EncryptionState, EncryptionVersion, Permissions};
 use lopdf::content::{Content, Operation};
 use std::panic::catch_unwind;
 
@@ -113,6 +113,20 @@ fn main() {
             let b = std::fs::read("rev2.pdf").unwrap();
             let d = Document::load_mem(&b).unwrap();
             println!("rev2: object 10 = {:?} (expected (new)); xref entry = {:?}", d.objects.get(&(10,0)), d.reference_table.get(10));
+        }
+        "owner" => {
+            for pw in ["user", "owner"] {
+                let mut d = base();
+                d.add_object(Object::string_literal("hello world, this is plaintext"));
+                d.add_object(Stream::new(dictionary!{}, b"stream plaintext 0123456789".to_vec()));
+                d.trailer.set("ID", Object::Array(vec![Object::string_literal(b"ABC".to_vec()), Object::string_literal(b"DEF".to_vec())]));
+                let orig = d.objects.clone();
+                let state = EncryptionState::try_from(EncryptionVersion::V2 { document: &d, owner_password: "owner", user_password: "user", key_length: 128, permissions: Permissions::all() }).unwrap();
+                d.encrypt(&state).unwrap();
+                let r = d.decrypt(pw);
+                let same = orig.iter().all(|(k, v)| d.objects.get(k) == Some(v));
+                println!("owner: V2 decrypt({pw}) = {:?}, content restored = {}", r.map_err(|e| e.to_string()), same);
+            }
         }
         _ => {}
     }
